@@ -22,6 +22,8 @@ package glob
 //@   let S = arr(input)
 //@   let so = off(input)
 //@   ensures result <==> globR(P, po, S, so, len(pattern), len(input))
+//@   replay r_result == hopvcRefGlob(p_pattern, p_input)
+//@   replayhelp glob_ref.go.txt
 //@   loop 2
 //@     invariant 0 <= i && i <= len(pattern) && len(reach) == len(input)+1
 //@     invariant forall k int :: 0 <= k && k <= len(input) ==> (reach[k] <==> globR(P, po, S, so, i, k))
